@@ -446,7 +446,7 @@ def mutate(rng, env, name, inp):
     for f in fields:
         by_key[f[1]] = f
         by_key[f[0]] = f
-    ops = ["drop", "null", "wrong", "extra", "rename", "const", "dupset", "numflip", "nested"]
+    ops = ["drop", "null", "wrong", "extra", "rename", "const", "dupset", "permset", "numflip", "nested"]
     for _ in range(6):
         op = rng.choice(ops)
         keys = [k for k in inp if k in by_key]
@@ -488,6 +488,14 @@ def mutate(rng, env, name, inp):
             if cands:
                 k = rng.choice(cands)
                 inp[k] = inp[k] + [inp[k][-1]]
+                return inp
+        if op == "permset":
+            cands = [k for k in keys if isinstance(inp[k], list) and len(inp[k]) > 1]
+            if cands:
+                k = rng.choice(cands)
+                xs = list(inp[k])
+                rng.shuffle(xs)
+                inp[k] = xs + [xs[0]]
                 return inp
         if op == "numflip":
             cands = [k for k in keys if isinstance(inp[k], (int, float)) and not isinstance(inp[k], bool)
@@ -1437,41 +1445,146 @@ def eval_case_inproc(uni, inp, how):
 _SHRINK_N = [0]
 
 
-def shrink_case(uni, inp, how, oracle_kind):
-    """ddmin over the main class's own fields, keeping a failure of the same oracle."""
+def _renamed(uni):
+    """Copy of a universe under fresh class names (nothing is cached by name in the worker)."""
+    _SHRINK_N[0] += 1
+    ren = f"S{_SHRINK_N[0]}x"
+    txt = json.dumps(uni)
+    for c in uni["classes"]:
+        txt = txt.replace('"' + c["name"] + '"', '"' + ren + c["name"] + '"')
+    return json.loads(txt)
+
+
+def _type_steps(t, v):
+    """Simpler (type, value) candidates for one field."""
+    out = []
+    if not isinstance(t, list):
+        return out
+    k = t[0]
+    if k == "opt":
+        out.append((t[1], v))
+    elif k in ("list", "set") and isinstance(v, list):
+        for e in v[:3]:
+            out.append((t[1], e))
+        if len(v) > 1:
+            for e in v[:3]:
+                out.append((t, [e]))
+    elif k == "dict" and isinstance(v, dict):
+        for e in list(v.values())[:3]:
+            out.append((t[1], e))
+    elif k == "union":
+        for a in t[1:]:
+            out.append((a, v))
+    return out
+
+
+def _referenced(uni):
     env = env_of(uni)
-    main = env[uni["main"]]
-    if how == "derived":
-        return uni, inp
+    seen, todo = set(), [uni["main"]]
 
-    def variant(fields):
-        _SHRINK_N[0] += 1
-        u = copy.deepcopy(uni)
-        ren = f"S{_SHRINK_N[0]}x"
-        m = [c for c in u["classes"] if c["name"] == uni["main"]][0]
-        m["fields"] = [list(f) for f in fields]
-        keep = {f[0] for f in fields} | {f[1] for f in fields}
+    def tys(t):
+        if isinstance(t, list):
+            if t[0] == "obj":
+                todo.append(t[1])
+            else:
+                for x in t[1:]:
+                    tys(x)
+
+    while todo:
+        n = todo.pop()
+        if n in seen:
+            continue
+        seen.add(n)
+        c = env[n]
+        if c["base"]:
+            todo.append(c["base"])
+        for f in c["fields"]:
+            tys(f[2])
+    return seen
+
+
+def shrink_case(uni, inp, how, oracle_kind, budget=70):
+    """Shrink a failing case while the same oracle keeps failing: ddmin over the main class's own fields,
+    then constants (@ld / add_const_fields of every class), then the field types (Optional, List/Set/Dict
+    element, Union member) together with the input value, then unreferenced classes."""
+    calls = [0]
+
+    def fails(u, i):
+        if calls[0] >= budget:
+            return False
+        calls[0] += 1
+        return any(p.get("oracle") == oracle_kind for p in eval_case_inproc(_renamed(u), i, how))
+
+    def main_of(u):
+        return [c for c in u["classes"] if c["name"] == u["main"]][0]
+
+    cur_u, cur_i = copy.deepcopy(uni), copy.deepcopy(inp)
+    derived = how == "derived"
+    # 1. fields
+    if not derived:
+        env = env_of(cur_u)
         inherited = set()
-        if m["base"]:
-            for f in flat_fields(env, m["base"]):
+        if main_of(cur_u)["base"]:
+            for f in flat_fields(env, main_of(cur_u)["base"]):
                 inherited |= {f[0], f[1]}
-        i2 = {k: v for k, v in inp.items() if k in keep or k in inherited}
-        # fresh class names so that nothing is cached by name
-        names = {c["name"]: ren + c["name"] for c in u["classes"]}
-        txt = json.dumps(u)
-        for a, b in names.items():
-            txt = txt.replace('"' + a + '"', '"' + b + '"')
-        return json.loads(txt), i2
 
-    def fails(fields):
-        u, i2 = variant(fields)
-        return any(p.get("oracle") == oracle_kind for p in eval_case_inproc(u, i2, how))
+        def with_fields(fields):
+            u = copy.deepcopy(cur_u)
+            main_of(u)["fields"] = [list(f) for f in fields]
+            keep = {f[0] for f in fields} | {f[1] for f in fields} | inherited
+            return u, {k: v for k, v in cur_i.items() if k in keep}
 
-    small = vlib.ddmin([list(f) for f in main["fields"]], fails, budget=40)
-    if small and fails(small):
-        u, i2 = variant(small)
-        return u, i2
-    return uni, inp
+        small = vlib.ddmin([list(f) for f in main_of(cur_u)["fields"]], lambda fs: fails(*with_fields(fs)), budget=30)
+        if small and len(small) < len(main_of(cur_u)["fields"]):
+            u, i = with_fields(small)
+            if fails(u, i):
+                cur_u, cur_i = u, i
+    # 2. constants of every class
+    for ci in range(len(cur_u["classes"])):
+        c = cur_u["classes"][ci]
+        if c["ld"]:
+            u = copy.deepcopy(cur_u)
+            u["classes"][ci]["ld"] = None
+            if fails(u, cur_i):
+                cur_u = u
+        k = 0
+        while k < len(cur_u["classes"][ci]["consts"]):
+            u = copy.deepcopy(cur_u)
+            del u["classes"][ci]["consts"][k]
+            if fails(u, cur_i):
+                cur_u = u
+            else:
+                k += 1
+    # 3. field types of the main class, with the input value
+    if not derived:
+        changed = True
+        while changed and calls[0] < budget:
+            changed = False
+            for fi, f in enumerate(main_of(cur_u)["fields"]):
+                key = f[1] if f[1] in cur_i else (f[0] if f[0] in cur_i else None)
+                if key is None:
+                    continue
+                for (t2, v2) in _type_steps(f[2], cur_i[key]):
+                    u = copy.deepcopy(cur_u)
+                    mf = main_of(u)["fields"][fi]
+                    mf[2], mf[3], mf[4] = t2, False, None
+                    i = dict(cur_i)
+                    i[key] = v2
+                    if fails(u, i):
+                        cur_u, cur_i, changed = u, i, True
+                        break
+                if changed:
+                    break
+    # 4. classes nothing refers to any more
+    ref = _referenced(cur_u)
+    if len(ref) < len(cur_u["classes"]):
+        u = copy.deepcopy(cur_u)
+        u["classes"] = [c for c in u["classes"] if c["name"] in ref]
+        if fails(u, cur_i):
+            cur_u = u
+    if cur_u == uni and cur_i == inp:
+        return uni, inp
+    return _renamed(cur_u), cur_i
 
 
 # ------------------------------------------------------------------------------------------
@@ -1739,6 +1852,12 @@ def run(ctx: vlib.Ctx):
             continue
         if m_ok:
             acc["both-accept"] += 1
+            env_p = env_of(job["uni"])
+            opt_dflt = any(f[3] and f[4] is not None and isinstance(f[2], list) and f[2][0] == "opt"
+                           for c_ in job["uni"]["classes"] for f in c_["fields"])
+            if (out[1] != "T" or (out[2] != "T" and not opt_dflt)) and len(disagreements) < 40:
+                disagreements.append({"kind": "parse-result-not-valid (C12_parse_valid)", "uid": job["uid"], "input": rec["input"],
+                                      "wtb": out[1], "omitsb": out[2], "model": out[0]})
             if canon_tval(out[0]) != canon_tval(rec["tval"]) and len(disagreements) < 40:
                 disagreements.append({"kind": "parse-result", "uid": job["uid"], "input": rec["input"],
                                       "model": out[0], "code": rec["tval"]})
@@ -1779,6 +1898,9 @@ def run(ctx: vlib.Ctx):
     cov["correspondence"] = {
         "theorems_tied": ["C12_parse_dump", "C12_second_roundtrip_stable", "C12_consts_forced", "C12_consts_ignored",
                           "C12_explicit_none_default", "C12_custom_parses_own_output", "C12_parsed_atoms_valid",
+                          "C12_parse_valid / C12_parse_idempotent (wtb, omitsb of every value the model parser returns for a mutated input "
+                          "the code also accepts; generated Unions are unambiguous)", "C12_set_input_order_irrelevant (permuted / duplicated arrays)",
+                          "C12_ambiguous_union_refuted (overlap probe on the code)",
                           "C12_dump_pinned_refuted (on the pinned tree: serialise-raises)"],
         "how": "dump/wfb/wtb/omitsb/parse of Schema/RoundTrip.v evaluated by the extracted runner on the harness-side typed value of "
                "every built instance and on mutated inputs, compared with json_dict()/parse_obj of the real classes",
